@@ -337,7 +337,7 @@ func c18BuildGrid(thorough bool) *c18Grid {
 			mm /= 3
 		}
 		ds := bulk
-		if m == 0 || m == 13 || m == 26 {
+		if m == 26 { // quick: both sources on all three options, the flag must win everywhere
 			ds = []drv.Driver{drv.Vet, drv.Standalone}
 		}
 		g.add(opt, "triple", ds...)
@@ -351,7 +351,7 @@ func c18BuildGrid(thorough bool) *c18Grid {
 			opt[i].Env = c18Src{Set: true, Val: s}
 			all[i].Env = opt[i].Env
 			ds := bulk
-			if vi < 3 {
+			if vi < 1 {
 				ds = []drv.Driver{drv.Vet, drv.Standalone}
 			}
 			g.add(opt, "fuzz-env/"+c18OptName[i], ds...)
@@ -362,7 +362,10 @@ func c18BuildGrid(thorough bool) *c18Grid {
 	for _, s := range []string{"", "yes", "garbage"} {
 		var opt [c18NOpt]c18Opt
 		opt[c18Scan].Flag = c18Src{Set: true, Val: s}
-		g.add(opt, "flag-rejected", drv.Vet, drv.Standalone)
+		g.add(opt, "flag-rejected", drv.Vet)
+		if thorough || s == "" {
+			g.add(opt, "flag-rejected", drv.Standalone)
+		}
 	}
 	return g
 }
